@@ -925,8 +925,8 @@ class Pregex():
             if self.__pattern.startswith('(?:'):
                 # non-capturing group.
                 pattern = self.__pattern.replace('?:', '', 1)
-            elif _re.match('\(\?[i].+', self.__pattern):
-                # non-capturing group with flag.
+            elif self.__pattern.startswith('(?') and not self.__pattern.startswith('(?P<'):
+                # non-capturing group with flag, lookaround or conditional.
                 pattern = f'({str(self)})'
             else:
                 # capturing group.
